@@ -24,6 +24,7 @@ ASSUMPTIONS = ["the reference implementation in checks/C12.py encodes the rule d
 @st.composite
 def rootish(draw, max_tokens):
     case = draw(S.tree_model(min_tokens=2, max_tokens=max_tokens, disc=0.5, words=st.sampled_from(["a", "b", ",", "."]),
+                             labels=st.sampled_from(["S", "NP", "VP", "PP", "VROOT", "TOP"]),
                              max_root=3))
     root = case["root"]
     moves = draw(st.integers(0, 5))
@@ -68,7 +69,7 @@ def scattered(draw, max_tokens):
         if len(members) == 1 and draw(st.booleans()):
             children.append(members[0])
             continue
-        node = {"l": draw(st.sampled_from(["S", "NP", "VP", "PP"])), "e": "--", "lem": "--", "m": "--", "c": members}
+        node = {"l": draw(st.sampled_from(["S", "NP", "VP", "PP", "VROOT"])), "e": "--", "lem": "--", "m": "--", "c": members}
         if len(members) >= 3 and draw(st.booleans()):
             picked = [m for m in members if draw(st.booleans())]
             if 1 <= len(picked) < len(members):
@@ -275,7 +276,29 @@ def gen_partitions(ctx):
         ctx.exhaustive = "all set partitions of 2..%d tokens into flat root children, singletons as tokens and as unary nodes" % top
 
 
+def gen_long(ctx):
+    """sentences of 260-300 tokens with unattached root children (single, consecutive, in gaps) near the end, in the
+    middle and at the start: positions beyond 256 are positions like any other"""
+    def tok(i, word="w"):
+        return {"w": word, "p": "NN", "n": i, "e": "--", "lem": "--", "m": "--"}
+    for total, loose in ((260, [257, 258]), (300, [3, 150, 151, 152, 299]), (270, [128, 129, 256, 257, 258, 259]), (262, [261])):
+        inner = [tok(i) for i in range(1, total + 1) if i not in loose]
+        # S over everything else, with an inner NP over a stretch in the middle
+        np_part = [t for t in inner if 100 <= t["n"] <= 140]
+        rest = [t for t in inner if not 100 <= t["n"] <= 140]
+        s_node = {"l": "S", "e": "--", "lem": "--", "m": "--", "c": rest + ([{"l": "NP", "e": "--", "lem": "--", "m": "--", "c": np_part}] if np_part else [])}
+        case = {"sid": 1, "root": {"l": "VROOT", "e": "--", "lem": "--", "m": "--", "c": [s_node] + [tok(i, ",") for i in loose]}}
+        got = []
+        try:
+            ctx.run_case(lambda c: got.append(check(c)), case)
+        except Violation as vio:
+            ctx.record(vio)
+        ctx.count(key=(total, tuple(loose)), nontrivial=True, classes=["long:tokens=%d" % total])
+        ctx.sample({"tokens": total, "unattached": loose, "reattached": got[0] if got else None}, cap=2)
+
+
 UNITS = [Unit("root_attach_vs_reference", gen, check, shards=(4, 16)),
+         Unit("long_sentences", gen_long, check, shards=(1, 1)),
          Unit("partitions_enum", gen_partitions, check, shards=(4, 16)),
          Unit("scattered_root_children", gen_scattered, check, shards=(4, 16))]
 
